@@ -334,7 +334,7 @@ def fixed_cases():
     out.append("AGG D DEF | A 0 %s | A 0 %s | P 0" % (d(DBL_MAX), d(down(DBL_MAX) - DBL_MAX + 1e292)))
     out.append("AGG D DEF | A 0 %s | A 0 1 | P 0" % d(float(1 << 53)))
     out.append("AGG D DEF | A 0 %s | A 0 %s | P 0" % (d(float(1 << 53)), d(3.0)))
-    # F8b: an int64 above 2^53 is compared after rounding to double
+    # F8b (fixed): an int64 above 2^53 must be compared exactly, not after rounding to double
     out.append("AGG L B 1 %s | A 0 %d | P 0" % (d(float(1 << 53)), (1 << 53) + 1))
     out.append("AGG L B 1 %s | A 0 %d | A 0 %d | P 0" % (d(float(1 << 53)), (1 << 53), (1 << 53) + 2))
     out.append("RDR L 1 0 B 1 %s | R 0 %d | C 0" % (d(float(1 << 53)), (1 << 53) + 1))
